@@ -91,7 +91,7 @@ gcm_make_key(const char *fam, int bits, gbuf *kd, gbuf *key, uint32_t kb, uint64
                 r = vcall(need("%saes_gcm_pre_%d", api_pre(fam), bits), 2, a, &o);
         } else {
                 /* same family for precompute and cipher (C02 mechanism 2) */
-                static uint8_t tmp[16 * 15] __attribute__((aligned(16)));
+                static __thread uint8_t tmp[16 * 15] __attribute__((aligned(16)));
                 uint64_t a[3] = { (uint64_t) key->p, (uint64_t) kd->p, (uint64_t) tmp };
                 vc_begin();
                 vc_input("key", key);
@@ -196,7 +196,7 @@ do_gcm(const cmd *c)
 
 /* ------------------------------------------------------------------ GCM streaming */
 #define NSTREAM 8
-static struct gstream {
+static __thread struct gstream {
         int used, bits;
         char fam[24];
         gbuf kd, key, ctx;
@@ -468,8 +468,8 @@ do_xts(const cmd *c)
                 pbuf(&k2, k2b, k2o, kbytes, c->t[18]);
         } else {
                 uint8_t raw1[32], raw2[32];
-                static uint8_t e1[240] __attribute__((aligned(16))), d1[240] __attribute__((aligned(16)));
-                static uint8_t e2[240] __attribute__((aligned(16))), d2[240] __attribute__((aligned(16)));
+                static __thread uint8_t e1[240] __attribute__((aligned(16))), d1[240] __attribute__((aligned(16)));
+                static __thread uint8_t e2[240] __attribute__((aligned(16))), d2[240] __attribute__((aligned(16)));
                 pat_fill(raw1, k1b, k1o, kbytes);
                 pat_fill(raw2, k2b, k2o, kbytes);
                 expand(bits, raw1, e1, d1);
